@@ -372,10 +372,13 @@ def subsample_field(field, subsampling, new_grid=None, statistic='mean'):
     if new_grid is None:
         new_grid = make_subsampled_grid(field.grid, subsampling)
 
+    # One factor per axis, in the order of new_grid.shape (the reverse of the order of grid.dims).
+    factors = (np.ones(new_grid.ndim, dtype='int') * subsampling)[::-1]
+
     reshape = []
     axes = []
     for i, s in enumerate(new_grid.shape):
-        reshape.extend([s, subsampling])
+        reshape.extend([s, int(factors[i])])
         axes.append(2 * i + 1)
 
     if field.tensor_order > 0:
